@@ -472,16 +472,20 @@ func TestVerifKeys(t *testing.T) {
 		Sessions [][]string `json:"sessions"`
 		Wild     int        `json:"wild"`
 		Frames   bool       `json:"frames"`
+		Every    int        `json:"frame_every"`
 	}
 	verifkit.In(&in)
 	w, out := verifSetup(t)
 	defer out.Close()
 	defer w.sim.Cleanup()
 	rng := verifkit.Rand()
+	if in.Every < 1 {
+		in.Every = 1
+	}
 	sid := 0
 	for _, toks := range in.Sessions {
 		sid++
-		v := verifNewSession(w, out, sid, in.Frames)
+		v := verifNewSession(w, out, sid, in.Frames && sid%in.Every == 0)
 		start := strings.TrimPrefix(toks[0], "start_")
 		target := map[string]string{"a": w.startA, "p": w.startP}[start]
 		lens := verifkit.M{}
@@ -527,7 +531,7 @@ func TestVerifKeys(t *testing.T) {
 	alphabet := []byte("jkghl carobp.:0123456789\r\x1b\x7fzZ/@ ~\x00\xff\x80\t")
 	for i := 0; i < in.Wild; i++ {
 		sid++
-		v := verifNewSession(w, out, sid, in.Frames)
+		v := verifNewSession(w, out, sid, in.Frames && sid%in.Every == 0)
 		starts := []string{"/users/alice", "/notes/n2", "/notes/n1", "/users/bob", "/missing", "/users/bob/outbox", "/notes/n1/replies"}
 		if w.id == "w2" {
 			starts = []string{"/users/carol", "/notes/m2", "/notes/m3", "/groups/grp", "/missing", "/users/carol/outbox", "/users/carol/outbox?page=2", "/notes/m4/replies", "/notes/q1"}
